@@ -1,5 +1,6 @@
 import FlowRecordProofs.Lemmas.Msgpack
 import FlowRecordProofs.Lemmas.Framing
+import FlowRecordProofs.Lemmas.MsgpackAny
 import FlowRecord.Model.Stream
 import FlowRecord.Spec.Wire
 /-!
@@ -88,3 +89,40 @@ theorem C02_compat_unversioned (d : Desc) (vals : List RV)
     (h : vals.length ≤ d.fields.length + Gen.RESERVED_FIELDS.length) : fitValues d vals = vals := by
   unfold fitValues
   rw [if_neg (by omega)]
+
+
+/-- M2 — conforming streams an INDEPENDENT writer may produce are read: `Encodes v bs` is the msgpack format as a
+    relation (any integer class wide enough for the value, any length class wide enough for the length, fixext for its
+    exact sizes, float32 or float64 — not just the smallest class, which is all the library's own writer ever emits).
+    Every such encoding of every value, to any nesting depth, followed by anything, is decoded to exactly that value
+    and leaves what follows untouched. -/
+theorem C02_any_conforming_encoding_is_read (v : MVal) (bs rest : Bytes) (he : Encodes v bs) :
+    dec (depth v) (bs ++ rest) = .ok (v, rest) :=
+  dec_encodes v bs (depth v) rest he (Nat.le_refl _)
+
+/-- … as one document (`unpackb`), and as one frame of a stream: the reader's frame splitter hands the decoder exactly
+    the conforming body, which decodes to the value. -/
+theorem C02_conforming_frame_is_read (v : MVal) (bs rest : Bytes) (he : Encodes v bs) (hl : bs.length < 4294967296) :
+    nextFrame (frameBytes bs ++ rest) = some (bs, rest) ∧ decode bs = .ok v :=
+  ⟨nextFrame_frame _ _ hl, decode_encodes v bs he⟩
+
+/-- M3 — the library's writer conforms: what the packer emits for any well-formed value is one of the encodings the
+    format allows (so M1 is the special case of M2 for the writer's own output). -/
+theorem C02_writer_output_conforms (v : MVal) (hw : WF v) : Encodes v (enc v) :=
+  encodes_enc v hw
+
+/-- The format is unambiguous: no byte string is a conforming encoding of two different values. -/
+theorem C02_encoding_unambiguous (v w : MVal) (bs : Bytes) (hv : Encodes v bs) (hw : Encodes w bs) : v = w := by
+  have h1 := decode_encodes v bs hv
+  have h2 := decode_encodes w bs hw
+  rw [h1] at h2
+  cases h2
+  rfl
+
+-- non-vacuity: non-minimal encodings the packer never emits are conforming (5 as uint16; "a" as str32; [nil] as array16)
+example : Encodes (.int 5) (0xcd :: beEnc 2 5) := IntEnc.u16 5 (by omega)
+example : Encodes (.int (-1)) (0xd3 :: beEnc 8 (twos 8 (-1))) := IntEnc.i64 (-1) (by omega) (by omega)
+example : Encodes (.str [97]) ((0xdb :: beEnc 4 1) ++ [97]) := ⟨_, StrHead.s32 1 (by omega), rfl⟩
+example : Encodes (.arr [.nil]) ((0xdc :: beEnc 2 1) ++ [0xc0]) :=
+  ⟨_, _, ArrHead.a16 1 (by omega), ⟨[0xc0], [], rfl, rfl, rfl⟩, rfl⟩
+example : decode (0xcd :: beEnc 2 5) = .ok (.int 5) := decode_encodes _ _ (IntEnc.u16 5 (by omega))
